@@ -505,6 +505,45 @@ func c03ProgCase(key, val string, nested bool) Case {
 	return c
 }
 
+// c03FlatCase: unquoted string nodes WITHOUT raw text (d2ast.FlatUnquotedString, as tools that build ASTs use
+// them) holding special characters in the middle: escapeUnquotedValue alone decides the text.
+func c03FlatCase(key, val string) Case {
+	c := Case{Class: "search/programmatic-flat", Key: "q:" + key + "\x00" + val}
+	func() {
+		defer func() {
+			if e := recover(); e != nil {
+				c.ImplFail = append(c.ImplFail, fmt.Sprintf("panic: %v", e))
+			}
+		}()
+		ks := d2ast.MakeValueBox(d2ast.FlatUnquotedString(key)).StringBox()
+		mk := &d2ast.Key{Key: &d2ast.KeyPath{Path: []*d2ast.StringBox{ks}}, Value: d2ast.MakeValueBox(d2ast.FlatUnquotedString(val))}
+		m := &d2ast.Map{Nodes: []d2ast.MapNodeBox{{MapKey: mk}}}
+		f1, fail := c03Format(m)
+		if fail != "" {
+			c.ImplFail = append(c.ImplFail, fail)
+		}
+		m1, nerr1, _ := c03Parse(f1)
+		f2 := ""
+		if m1 != nil {
+			f2, _ = c03Format(m1)
+		}
+		c.Coq = fmt.Sprintf("CSearch %d %s %s", nerr1, coqRunes(f1), coqRunes(f2))
+		st := "ok"
+		if nerr1 > 0 {
+			st = "reparse-error"
+		} else if f1 != f2 {
+			st = "not-idempotent"
+		}
+		c.Input = map[string]any{"text": fmt.Sprintf("FlatUnquotedString key %q value %q", key, val)}
+		c.Impl = map[string]any{"f1": f1, "f1_window": f1, "f2_window": f2, "reparse_errors": nerr1, "status": st}
+		c.Nontrivial = true
+	}()
+	if c.Coq == "" {
+		c.Coq = "CSearch 0 [] []"
+	}
+	return c
+}
+
 func c03FragCase(text, class string, must bool) Case {
 	x := c03RunImpl(text)
 	c := Case{Class: "frag/" + class, Key: "f:" + text, ImplFail: x.fails}
@@ -629,6 +668,10 @@ func c03Gen(r *Rng, tier string, n int) []Case {
 				out = append(out, pc)
 			}
 		}
+	}
+	for _, sp := range []string{"#", ";", "{", "}", "[", "]", "'", "\"", "|", "$", "@", "\\", "\n", ":", ".", "--", "->", "<", ">", "*", "(", ")"} {
+		out = append(out, c03FlatCase("k", "a"+sp+"b"))
+		out = append(out, c03FlatCase("a"+sp+"b", "v"+sp+sp+"w x"))
 	}
 	for i := 0; i < budget/12; i++ {
 		k, _ := c05RandStr(r)
